@@ -4,6 +4,7 @@
    expression, branch condition, slice offset and table used here is a definition of Gen/C03_gen.v,
    which gen/c03.py re-translates from the source of the working tree on every run.
    Definitions only; proofs are in Proofs/C03_proofs.v. *)
+From Coq Require Import String.
 From PV Require Import Bytes C03_gen.
 Open Scope Z_scope.
 
@@ -124,6 +125,42 @@ Definition mac_ok (m : c03_mac) : bool := (0 <? ma_size m) && (ma_size m <=? ma_
 Definition tables_ok : bool :=
   forallb cipher_ok c03_cipher_table && forallb mac_ok c03_mac_table
   && negb (Nat.eqb (length c03_cipher_table) 0) && negb (Nat.eqb (length c03_mac_table) 0).
+
+(* ---- what the algorithm names mean (hand-written from the RFCs, NOT generated) --------------------- *)
+(* RFC 4253 6.4, RFC 6668 2, OpenSSH PROTOCOL 1.1: name -> (MAC length in bytes, encrypt-then-MAC framing) *)
+Definition rfc_macs : list (string * (Z * bool)) :=
+  [ ("hmac-sha1"%string, (20, false)); ("hmac-sha1-96"%string, (12, false));
+    ("hmac-md5"%string, (16, false)); ("hmac-md5-96"%string, (12, false));
+    ("hmac-sha2-256"%string, (32, false)); ("hmac-sha2-512"%string, (64, false));
+    ("hmac-sha2-256-etm@openssh.com"%string, (32, true)); ("hmac-sha2-512-etm@openssh.com"%string, (64, true));
+    ("hmac-sha1-etm@openssh.com"%string, (20, true)); ("hmac-sha1-96-etm@openssh.com"%string, (12, true));
+    ("hmac-md5-etm@openssh.com"%string, (16, true)); ("hmac-md5-96-etm@openssh.com"%string, (12, true)) ].
+(* RFC 4253 6.3, RFC 4344, RFC 5647 / OpenSSH PROTOCOL 1.6: name -> (cipher block size, AEAD) *)
+Definition rfc_ciphers : list (string * (Z * bool)) :=
+  [ ("3des-cbc"%string, (8, false));
+    ("aes128-cbc"%string, (16, false)); ("aes192-cbc"%string, (16, false)); ("aes256-cbc"%string, (16, false));
+    ("aes128-ctr"%string, (16, false)); ("aes192-ctr"%string, (16, false)); ("aes256-ctr"%string, (16, false));
+    ("aes128-gcm@openssh.com"%string, (16, true)); ("aes256-gcm@openssh.com"%string, (16, true)) ].
+
+Fixpoint assoc {A} (k : string) (l : list (string * A)) : option A :=
+  match l with
+  | [] => None
+  | (k', v) :: r => if String.eqb k k' then Some v else assoc k r
+  end.
+
+(* a generated table entry agrees with the reference for its name (names without a reference: no claim) *)
+Definition mac_matches_rfc (m : c03_mac) : bool :=
+  match assoc (ma_name m) rfc_macs with
+  | Some (sz, etm) => (ma_size m =? sz) && Bool.eqb (ma_etm m) etm
+  | None => true
+  end.
+Definition cipher_matches_rfc (c : c03_cipher) : bool :=
+  match assoc (ci_name c) rfc_ciphers with
+  | Some (bs, aead) => (ci_bs c =? bs) && Bool.eqb (ci_aead c) aead
+  | None => true
+  end.
+Definition referenced (names : list string) {A} (ref : list (string * A)) : Z :=
+  Z.of_nat (length (filter (fun n => match assoc n ref with Some _ => true | None => false end) names)).
 
 (* ---- correspondence entry points --------------------------------------------------------------- *)
 Definition b2z (b : bool) : Z := if b then 1 else 0.
